@@ -7,8 +7,7 @@ After every step the new entry and every older entry are compared with a small
 Boolean model over probe documents, and the digests of all older entries must
 be unchanged.
 """
-from valida.conditions import ConditionLike, NullCondition
-from valida.data import Data
+from valida.conditions import ConditionLike
 
 from .. import gen as G
 from ..common import Report, stream, digest, order_to_decisions, big
@@ -586,8 +585,6 @@ def op_variants(op):
 
 
 def _items_variants(items):
-    from ..minimise import cond_variants
-
     for i in range(len(items)):
         yield items[:i] + items[i + 1 :]
     for i, it in enumerate(items):
